@@ -207,6 +207,9 @@ def run_case(case):
             # the same bit pattern spelled as a negative integer (init=-1 is the all-ones idiom)
             kw_init["init"] = init_bits - (1 << w)
             mon_negative_init = True
+        elif "init" in kw_init and desc[0] == "s" and init_bits >> (w - 1) and rng.random() < 0.4:
+            # a signed field whose initial value is written as the raw bit pattern (a hex literal with the top bit set)
+            kw_init["init"] = init_bits
         elif init_bits == 0 and desc[0] != "fx" and rng.random() < 0.3:
             kw_init = {"init": None}           # "no particular initial value": the documented default applies
         dut = getattr(action, act)(shape, **kw_init)
